@@ -57,7 +57,8 @@ class time_cap:
 class Result:
     """What one chunk reports.  Everything is measured, nothing is a constant."""
 
-    def __init__(self):
+    def __init__(self, keep_all=False):
+        self.keep_all = keep_all  # replays that re-run a family of cases and filter need every case
         self.evals = 0            # implementation calls compared with the reference
         self.states = set()       # digests of distinct canonical cases/states
         self.transitions = 0      # implementation steps taken
@@ -78,7 +79,7 @@ class Result:
     def viol(self, key, what, case, expected=None, observed=None):
         # every distinct key is kept (first two cases each); nothing is dropped by a global cap
         n = self._per_key.get(key, 0)
-        if n < 2:
+        if n < 2 or self.keep_all:
             self._per_key[key] = n + 1
             self.viols.append(dict(key=key, what=what, case=case, expected=expected, observed=observed))
         self.extra["violating_cases"] += 1
